@@ -306,6 +306,17 @@ def units_B(tier):
     from props.common import wrap as _wrap
     for f in NG.FUNCS:
         _wrap(us, "C08.%s.undefined_element_reported_not_dereferenced" % f, NG.unit_null_guards, f)
+    from props import c08_errors as ER
+    _wrap(us, "C08.errors.Phreeqc_error_msg_makes_the_call_fail", ER.unit_phreeqc_error_msg)
+    _wrap(us, "C08.errors.get_input_errors", ER.unit_get_input_errors)
+    _wrap(us, "C08.errors.PHRQ_io_error_msg_counts_once", ER.unit_io_error_msg)
+    _wrap(us, "C08.errors.IPhreeqc_error_msg", ER.unit_ipq_error_msg)
+    _wrap(us, "C08.errors.warnings_are_not_errors", ER.unit_warnings_do_not_count)
+    from props import C04 as _C04
+    for fn_name in ("RunString", "RunFile", "RunAccumulated"):
+        def _en(twin=False, fn_name=fn_name):
+            r_ = _C04.unit_run_entry(fn_name, twin=twin); r_.id = "C08.entry.%s.counters_reset_and_error_count_returned" % fn_name; return r_
+        _wrap(us, "C08.entry.%s.counters_reset_and_error_count_returned" % fn_name, _en)
     return us
 
 
